@@ -91,6 +91,12 @@ func fixedFlow() []*flow.Rule {
 	return []*flow.Rule{
 		{ID: "S-block", Resource: sBlock, TokenCalculateStrategy: flow.Direct, ControlBehavior: flow.Reject, Threshold: 0},
 		{ID: "S-pass", Resource: sPass, TokenCalculateStrategy: flow.Direct, ControlBehavior: flow.Reject, Threshold: 1e12},
+		// two un-churned rules of other resources that meter on sPass's traffic through standalone windows: every request on
+		// sPass walks the derived "rules referencing this resource" list while the flow updater rebuilds that index
+		{ID: "A1", Resource: "c15-assoc-1", TokenCalculateStrategy: flow.Direct, ControlBehavior: flow.Reject, Threshold: 1e12,
+			RelationStrategy: flow.AssociatedResource, RefResource: sPass, StatIntervalInMs: 20000},
+		{ID: "A2", Resource: "c15-assoc-2", TokenCalculateStrategy: flow.Direct, ControlBehavior: flow.Reject, Threshold: 1e12,
+			RelationStrategy: flow.AssociatedResource, RefResource: sPass, StatIntervalInMs: 20000},
 	}
 }
 
